@@ -29,7 +29,7 @@ THEOREMS = [f'Gnpy.Select.{t}' for t in (
     'preselect_sound', 'preselect_sound_partial', 'preselect_old_leaves_permitted_set', 'gain_fallback_spec',
     'mem_selectionLibrary', 'nodeRestrictionsMulti_permitted', 'auto_selection_main', 'findTypeVarietyE_mem',
     'multiband_choice_sound_if_single_entry', 'multiband_result_unpermitted_iff', 'per_band_mix_witness',
-    'band_pick_spec', 'multiband_band_picks')]
+    'band_pick_spec', 'multiband_band_picks', 'typedLoad_members', 'typedPick_spec', 'typed_design_sound')]
 PARTIAL = ['multiband (open finding multiband-per-band-choices-form-unpermitted-type): the whole Multiband_amplifier '
            'branch is modelled (multibandDesign) and under exact correspondence; proved: the node type is a permitted '
            'entry listing all picks when one permitted entry lists them (multiband_choice_sound_if_single_entry), and '
@@ -55,7 +55,8 @@ MODEL_SCOPE = ('modelled: select_edfa, filter_edfa_list_based_on_targets, edfa_n
                'scope: libraries in which two multiband entries list identical members (ambiguous, PYTHONHASHSEED '
                'dependent outcome). The Multiband_amplifier branch of set_egress_amplifier without user type '
                '(restrictions -> preselection -> per-band select_edfa -> find_type_variety) is modelled as '
-               'multibandDesign; a user-typed Multiband_amplifier is only monitored')
+               'multibandDesign; a user-typed Multiband_amplifier (amplifiers listed fully / partially / not at all, load '
+               'check of network_from_json included) as typedLoadOk/typedDesign')
 
 
 # ---------------------------------------------------------------------------------------------------------------------
@@ -311,14 +312,28 @@ def gen_mtopo(rng):
     def rlist():
         return rng.choice([[], [], sub()])
     bands = [list(rng.choice(LDESIGN)), list(rng.choice(CDESIGN))]
+    members = {e['type_variety']: list(e['amplifiers']) for e in entries if e['type_def'] == 'multi_band'}
+    singles = [e['type_variety'] for e in entries if e['type_variety'][0] in 'cl']
+
+    def mb(uid):
+        tv = rng.choice(['', '', '', rng.choice(mnames)])
+        it = {'el': 'mb', 'uid': uid, 'type_variety': tv, 'variety_list': rng.choice([None, None, sub()]), 'listed': None}
+        if tv:
+            how = rng.choice(['none', 'none', 'full', 'full', 'partial', 'bad'])
+            if how == 'full':
+                it['listed'] = list(members[tv])
+            elif how == 'partial':
+                it['listed'] = [rng.choice(members[tv])]
+            elif how == 'bad':
+                other = [x for x in singles if x not in members[tv]]
+                it['listed'] = [members[tv][0], rng.choice(other)] if other else None
+        return it
     lines = {}
     for d in ('ab', 'ba'):
-        lines[d] = [{'el': 'mb', 'uid': f'boost {d}', 'type_variety': rng.choice(['', '', '', rng.choice(mnames)]),
-                     'variety_list': rng.choice([None, None, sub()])},
+        lines[d] = [mb(f'boost {d}'),
                     {'el': 'fiber', 'uid': f'fiber {d}', 'length': rng.choice([40, 50, 60, 80, 100]), 'loss_coef': 0.2,
                      'type_variety': 'SSMF'},
-                    {'el': 'mb', 'uid': f'pre {d}', 'type_variety': rng.choice(['', '', '', rng.choice(mnames)]),
-                     'variety_list': rng.choice([None, None, sub()])}]
+                    mb(f'pre {d}')]
     return {'kind': 'mtopo', 'edfa': entries, 'bands': bands,
             'roadm': {'A': {'booster_variety_list': rlist(), 'preamp_variety_list': rlist()},
                       'B': {'booster_variety_list': rlist(), 'preamp_variety_list': rlist()}},
@@ -732,6 +747,8 @@ def mtopo_json(case):
                      'metadata': nets.loc()}
                 if it['variety_list'] is not None:
                     e['variety_list'] = list(it['variety_list'])
+                if it.get('listed'):
+                    e['amplifiers'] = [{'type_variety': t, 'operational': {'tilt_target': 0}} for t in it['listed']]
                 line.append(e)
         nets.chain(els, cxs, s_, t_, line)
     return {'elements': els, 'connections': cxs}
@@ -745,18 +762,38 @@ def run_mtopo(case, drv):
     res = Result()
     errmsg = ''
     eq = load_entries(case['edfa'], span={'target_extended_gain': case['ext']})
+    lib = lib_json(eq)
+    typed = [it for d in ('ab', 'ba') for it in case['lines'][d] if it['el'] == 'mb' and it['type_variety']]
+    model_load_bad = [it['uid'] for it in typed if it.get('listed') and 'load_error' in drv.ask(
+        'c10.typeddesign', lib=lib, type_variety=it['type_variety'], listed=it['listed'], amps=[], ext=f2b(0.0),
+        raman_allowed=False)]
     try:
         net = network_from_json(mtopo_json(case), eq)
+        load_err = None
     except (ConfigurationError, NetworkTopologyError) as e:
-        res.stats[f'mtopo_load_{err_kind(e)}'] += 1
+        load_err = err_kind(e)
+    res.cmp_exact('network_from_json.typed_multiband_accepted', load_err is None, not model_load_bad, bad=model_load_bad)
+    if load_err is not None:
+        # monitor: a typed node whose listed amplifiers are not all members of its type must not be accepted silently
+        res.stats[f'mtopo_load_{load_err}'] += 1
+        res.nontrivial = True
         return res
+    for it in typed:
+        if it.get('listed') and not set(it['listed']) <= set(eq['Edfa'][it['type_variety']].multi_band):
+            res.fail(f'permitted set: {it["uid"]} of type {it["type_variety"]} was loaded with amplifiers {it["listed"]} that '
+                     'are not members of that type')
+    own0 = {n.uid: [a.params.type_variety for a in n.amplifiers.values()] for n in net.nodes()
+            if type(n).__name__ == 'Multiband_amplifier'}
     restr_calls, pre_calls, sel_calls, targets = [], [], [], []
     o_restr, o_pre, o_sel, o_cmp = (gnet.get_node_restrictions, gnet.preselect_multiband_amps, gnet.select_edfa,
                                     gnet.compute_gain_power_and_tilt_target)
 
+    cmp_calls = []
+
     def w_cmp(*a, **k):
         out = o_cmp(*a, **k)
         targets.append((float(out[0]), float(out[1])))
+        cmp_calls.append((a[0].uid, float(out[0]), float(out[1])))
         return out
 
     def w_restr(node, prev_node, next_node, equipment, _design_bands):
@@ -805,7 +842,6 @@ def run_mtopo(case, drv):
     finally:
         gnet.get_node_restrictions, gnet.preselect_multiband_amps, gnet.select_edfa = o_restr, o_pre, o_sel
         gnet.compute_gain_power_and_tilt_target = o_cmp
-    lib = lib_json(eq)
     # ---------------- correspondence
     for r in restr_calls:
         ctx = {'type_variety': r['tv'] or '', 'variety_list': r['vl'], 'prev_booster': r['booster'],
@@ -870,6 +906,71 @@ def run_mtopo(case, drv):
             else:
                 res.cmp_exact('multiband_design.type_variety_among_candidates', tv in m['candidates'], True, uid=uid)
             res.stats['mtopo_nodes_modelled'] += 1
+    # ---------------- correspondence: user-typed Multiband_amplifier nodes against Gnpy.Select.typedDesign
+    from gnpy.core.parameters import find_band_name, FrequencyBand
+    last_uid = cmp_calls[-1][0] if cmp_calls else None
+    ambiguous_typed = set()
+    for d_, ingress in (('ab', 'roadm A'), ('ba', 'roadm B')):
+        first_uid = case['lines'][d_][0]['uid']
+        dbs = by0[ingress].per_degree_design_bands.get(first_uid, [])
+        dmap = {find_band_name(FrequencyBand(f_min=b['f_min'], f_max=b['f_max'])): [int(b['f_min']), int(b['f_max'])]
+                for b in dbs}
+        for it in case['lines'][d_]:
+            if it['el'] != 'mb' or not it['type_variety']:
+                continue
+            uid = it['uid']
+            node = by0[uid]
+            calls = [c_ for c_ in cmp_calls if c_[0] == uid]
+            names = list(node.amplifiers)
+            if len(calls) != len(names) or not all(n in dmap for n in names):
+                continue       # not (completely) processed before the design stopped
+            if err is not None and (err != 'ConfigurationError' or uid != last_uid):
+                if not node.params.type_variety:
+                    continue
+            sels = [x for x in sel_calls if x['uid'] == uid]
+            own = own0[uid]
+            m = drv.ask('c10.typeddesign', lib=lib, type_variety=it['type_variety'], listed=[], ext=f2b(case['ext']),
+                        raman_allowed=bool(sels[0]['raman_allowed']) if sels else False,
+                        amps=[{'band': dmap[n], 'gain': f2b(c_[1]), 'power': f2b(c_[2]), 'own': o_}
+                              for n, c_, o_ in zip(names, calls, own)])
+            exact = True
+            k = 0
+            for bd in m['bands']:
+                if bd['own']:
+                    continue
+                if bd['pick'] is not None and k < len(sels) and sels[k]['out'] is not None:
+                    impl_nf = {}
+                    for x in bd['acceptable']:
+                        try:
+                            impl_nf[x['variety']] = float(gnet.edfa_nf(sels[k]['gain'], eq['Edfa'][x['variety']]))
+                        except Exception:  # noqa: BLE001
+                            pass
+                    tied, ex = nf_tie(bd['acceptable'], bd['pick'], impl_nf)
+                    if not ex:
+                        exact = False
+                        res.cmp_exact('typed_multiband.pick_among_nf_ties', sels[k]['out'][0] in tied, True,
+                                      chosen=sels[k]['out'][0], tied=tied, uid=uid)
+                k += 1
+            if not exact:
+                res.ill += 1
+                continue
+            failed_here = err == 'ConfigurationError' and uid == last_uid
+            picks = [a.params.type_variety for a in node.amplifiers.values()]
+            if failed_here:
+                res.cmp_exact('typed_multiband_design.outcome', 'ConfigurationError', m.get('error', 'designed'), uid=uid)
+            elif 'error' in m:
+                res.cmp_exact('typed_multiband_design.outcome', 'designed', m['error'], uid=uid)
+            else:
+                res.cmp_exact('typed_multiband_design.picks', picks, m['picks'], uid=uid)
+                if len(m['candidates']) == 1 or len(m['picks']) == 1:
+                    # one pick: functools.reduce returns the single find_type_varieties list itself (library order)
+                    res.cmp_exact('typed_multiband_design.type_variety', node.params.type_variety, m['candidates'][0], uid=uid)
+                else:
+                    ambiguous_typed.add(uid)
+                    res.cmp_exact('typed_multiband_design.type_variety_among_candidates',
+                                  node.params.type_variety in m['candidates'], True, uid=uid)
+                res.stats['mtopo_typed_nodes_modelled'] += 1
+                res.stats[f'mtopo_typed_listed_{"none" if not it.get("listed") else len(it["listed"])}'] += 1
     # ---------------- monitor
 
     def permitted_multi(uid, node):
@@ -906,8 +1007,21 @@ def run_mtopo(case, drv):
             node = by[uid]
             tv = node.params.type_variety
             if it['type_variety']:
+                picks = [a.params.type_variety for a in node.amplifiers.values()]
+                mem = list(eq['Edfa'][it['type_variety']].multi_band)
+                # the statement for a typed element: every per-band model is a member of the typed entry
+                if not set(picks) <= set(mem):
+                    res.fail(f'permitted set: {uid} of user type {it["type_variety"]} received per-band models {picks}, its '
+                             f'members are {mem}')
+                groupers = [n for n, a in eq['Edfa'].items() if a.type_def == 'multi_band'
+                            and set(picks) <= set(a.multi_band)]
                 if tv != it['type_variety']:
-                    res.fail(f'permitted set: {uid}: user type_variety {it["type_variety"]} replaced by {tv}')
+                    if len(groupers) > 1:
+                        # partially listed amplifiers: several entries list the picks, find_type_variety(...)[0] takes a
+                        # hash-order dependent one (ambiguous outcome, out of scope like twin entries)
+                        res.stats['mtopo_typed_renamed_ambiguous'] += 1
+                    else:
+                        res.fail(f'permitted set: {uid}: user type_variety {it["type_variety"]} replaced by {tv}')
                 continue
             auto += 1
             pm = permitted_multi(uid, node)
